@@ -277,7 +277,11 @@ func (h *c09Hist) openLive(root string, mem *vfs.MemFS) (*c09Store, error) {
 	h.dirty, h.syncPending = false, false
 	h.mu.Unlock()
 	c09TheMux.register(root, errorfs.Wrap(mem, h.hook(gen)))
-	return c09OpenStore(root, h.plan.chans)
+	s, err := c09OpenStore(root, h.plan.chans)
+	if err == nil {
+		s.configure(h.plan)
+	}
+	return s, err
 }
 
 func (h *c09Hist) live() {
@@ -622,6 +626,15 @@ func (h *c09Hist) audit(cut *c09Cut, stats *c09AuditStats, contRng *rand.Rand) {
 	if !allOK {
 		return
 	}
+	if inflightAny && r.WantSample() {
+		fl := []string{}
+		for c := range p.chans {
+			if cut.b[c] > cut.a[c] {
+				fl = append(fl, fmt.Sprintf("chan %d: %s -> recovered state = step %d of [%d..%d]", c, p.gens[c].steps[cut.b[c]-1].detail(), matched[c], cut.a[c], cut.b[c]))
+			}
+		}
+		r.Sample(map[string]any{"case": h.idx, "plan": p.desc(), "cut": cutInfo, "in_flight": fl})
+	}
 	// Continuation: the recovered store must accept the channel's next step
 	// (for an absent in-flight step that is the in-flight step itself) and land
 	// on the next model state; a present in-flight exact append must replay as
@@ -745,15 +758,27 @@ func c09RunHistory(r *verifkit.Run, idx int, stats *c09AuditStats, opsPerIssuer,
 	if len(p.issuers) > 1 {
 		stats.add("histories.concurrent_issuers", 1)
 	}
+	if p.chans[0].Typed {
+		stats.add("histories.typed_channel_log_api", 1)
+	}
+	if p.coord != nil {
+		stats.add("histories.reconfigured_commit_coordinator", 1)
+	}
 }
 
 func TestVerifC09Crashfs(t *testing.T) {
 	r := verifkit.Start(t, "C09", "crashfs")
 	defer r.Finish()
 	c09InstallSeam()
-	r.SetRule("Case = one generated history over 1-4 channels (exact-proposal channels: exact appends with manifests/identities incl. adjacent and cross-channel batches, exact replays, rejected gap/bad-predecessor appends, recovery suffix replacement, proposal-boundary truncation; legacy channels: strict/server-allocated/trusted/batched appends, strict/trusted/batched follower applies with checkpoint, HW-only checkpoint and epoch point; both: checkpoint stores, epoch begins, retention adoption, bounded multi-call prefix trims, rejected operations) issued by 1-4 concurrent sequential issuers through the commit coordinator on a pebble CrashableMem filesystem; clean and crash restarts inside single-issuer histories. A crash image is cloned before PRNG-selected filesystem write/sync/create/rename events (i.e. while an operation is between its WAL write and its acknowledgement), between operations, and from a free-running goroutine: 100% = process-kill image, 0% = power loss dropping all unsynced data, 1-99% = random unsynced 4K blocks/dir entries. Evaluation = one image reopened through message.Open and audited. Non-trivial = image taken while >=1 step was in flight on the channel, or an image that verifiably lacks data present in the simultaneous full image; distinct by (channel kind, in-flight step kind/variant, pct class, filesystem event, in-flight step present/absent, lossy).")
+	r.SetRule("Case = one generated history over 1-4 channels of one flavour. Compatibility flavour (message.Engine/ChannelStore, the surface behind pkg/channel/store): exact-proposal channels (StoreAppendBatch exact appends with manifests/identities and piggy-backed committed HW, adjacent proposals in one call, cross-channel batches, all three append classes, exact replays, rejected gap/bad-predecessor appends, ReplaceRecoverySuffix incl. re-certified entries and reused command ids, proposal-boundary Truncate/TruncateLogAndHistory, rejected proposal-splitting truncation) and legacy channels (Append/AppendServerAllocated/AppendTrusted/batched appends, StoreApplyFetch[Trusted][WithEpoch] and StoreApplyFetchTrustedBatch with full checkpoint, HW-only checkpoint and epoch point, rejected duplicate idempotency key); both: StoreCheckpoint[Monotonic], StoreCheckpointHWMonotonic[Batch], rejected checkpoint regression, BeginEpoch, InstallSnapshotAtomically, AdvanceCommittedDispatchCursorDurable, AdoptRetentionBoundary, bounded multi-call TrimMessagesThroughLimit (MaxMessages/MaxBytes), rejected trims. Typed flavour (engine.Open+message.NewDB as db.OpenNodeStore does, ChannelLog API): Append (3 modes, pinned base), ApplyFetch, StoreCheckpoint[Monotonic], TruncateFrom, adopting TrimPrefixThroughLimit, AppendHistory, InstallSnapshot. 1-4 concurrent sequential issuers, commit coordinator default or re-configured (shards 1/2/4, request cap, collection window); clean and crash restarts inside single-issuer histories. Plus restore-cleanup scenarios: MessageDBFactory.DiscardRestoreChannels over >1024 rows with an image before every filesystem event of the cleanup. A crash image is cloned before PRNG-selected filesystem write/sync/create/rename events (i.e. while an operation is between its WAL write and its acknowledgement), between operations, and from a free-running goroutine: 100% = process-kill image, 0% = power loss dropping all unsynced data, 1-99% = random unsynced 4K blocks/dir entries. Evaluation = one image reopened through the normal open path and audited. Non-trivial = image taken while >=1 step was in flight on the channel, or an image that verifiably lacks data present in the simultaneous full image; distinct by (channel kind, in-flight step kind/variant, pct class, filesystem event, in-flight step present/absent, lossy).")
 	r.Assume("per channel the issuer is sequential: admissible recovered states are the model states after step j, lastAcked <= j <= lastBegun (each storage call is one step; a bounded trim loop is one step per call)")
 	r.Assume("CrashableMem models lost unsynced file data and directory entries at 4K-block granularity; no torn sectors, no reordering of synced writes; only engines opened through engine.Open see the seam")
+	r.Note("not_reached", []string{
+		"ChannelLog.StoreRetentionState / TruncateHistoryTo / StoreSnapshotPayload, ChannelStore.PutIdempotency, non-durable StoreCommittedDispatchCursor",
+		"backup snapshot import / restore staging (ImportBackupSnapshot*), pkg/db/meta",
+		"ChannelLog.TruncateFrom below RetentionState.RetainedMaxSeq (typed API leaves the retention record untouched; not driven)",
+		"strace-based sync-before-ack trace check (design mechanism 3) and strace-injected kills at the N-th pwrite/fdatasync; the filesystem-event images of unit crashfs stand in for them",
+	})
 	stats := &c09AuditStats{m: map[string]int{}}
 	nHist := r.N(48, 480)
 	ops := r.N(26, 34)
